@@ -156,3 +156,125 @@ def conditions_of(prog):
     for c in top.get("termsim_when", ()):
         add(c)
     return seen
+
+
+# ---------------------------------------------------------------------------------------
+# C12: core fragment (no interrupts): all bodies up to a length bound
+# ---------------------------------------------------------------------------------------
+
+SUBS = {
+    "S1": {"body": [("take", "s1")]},
+    "S2": {"body": [("take", "s1"), ("take", "s2")]},
+    "S3": {"body": [("wait",), ("take", "s1"), ("take", "s2"), ("take", "s3")]},
+}
+
+MONITOR = {
+    "M": {
+        "body": [
+            (
+                "loop",
+                None,
+                [("if", "mt", [("terminate",)]), ("if", "ms", [("termsim",)]), ("if", "mr", [("require", "never")]), ("wait",)],
+            )
+        ]
+    }
+}
+
+
+def c12_alphabet(thorough):
+    al = [
+        ("take", "a"),
+        ("wait",),
+        ("waitfor", 2, "steps"),
+        ("waitfor", 1, "seconds"),
+        ("waituntil", "c1"),
+        ("do", "S2"),
+        ("dofor", "S3", 2, "steps"),
+        ("dofor", "S3", 1.5, "seconds"),
+        ("dountil", "S3", "c1"),
+        ("terminate",),
+        ("termsim",),
+        ("loop", 2, [("take", "l")]),
+    ]
+    if thorough:
+        al += [
+            ("take", "a", "b"),
+            ("waitfor", 1, "steps"),
+            ("waitfor", 0.5, "seconds"),
+            ("do", "S1"),
+            ("dofor", "S2", 3, "steps"),
+            ("dofor", "S1", 2, "steps"),
+            ("dountil", "S2", "c1"),
+            ("require", "c1"),
+            ("loop", None, [("take", "z"), ("waituntil", "c1")]),
+            ("if", "c1", [("take", "i")]),
+        ]
+    return al
+
+
+def c12_programs(tier):
+    """Yield (index, prog, sim_variants).  sim_variants: list of dict(timestep, maxSteps)."""
+    thorough = tier == "thorough"
+    al = c12_alphabet(thorough)
+    maxlen = 2
+    idx = 0
+    tops = [
+        {"terminate_after": None},
+        {"terminate_after": (3, "steps")},
+        {"terminate_after": (1.5, "seconds")},
+    ]
+    for n in range(1, maxlen + 1):
+        for body in itertools.product(al, repeat=n):
+            if n == 3 and thorough:
+                # third statement must differ in kind from the first (symmetric repeats add little)
+                if body[0][0] == body[2][0] == body[1][0]:
+                    continue
+            for ti, top in enumerate(tops):
+                for two in (False, True):
+                    if two and (ti != 0 and not thorough):
+                        continue
+                    behaviors = dict(SUBS)
+                    if ti == 1:
+                        behaviors["B"] = {"body": list(body) + [("loop", None, [("take", "end")])]}
+                    else:
+                        behaviors["B"] = {"body": list(body)}
+                    agents = [("A1", "B")]
+                    if two:
+                        behaviors["C"] = {"body": [("take", "c1"), ("waituntil", "c2"), ("take", "c2"), ("dofor", "S2", 1, "steps"), ("take", "c3")]}
+                        agents.append(("A2", "C"))
+                    prog = {
+                        "behaviors": behaviors,
+                        "monitors": dict(MONITOR),
+                        "agents": agents,
+                        "top": dict(top, terminate_when=["tw"], termsim_when=["ts"], monitors=["M"], records=1, records_final=1),
+                    }
+                    yield idx, prog
+                    idx += 1
+
+
+def fire_tables(names, horizon, max_dev, shapes=("step",), times=None):
+    """All truth-table assignments in which at most max_dev conditions ever become true.
+    shape "step": false before k, true from k on; "pulse": true only at k."""
+    base = {n: [False] * (horizon + 1) for n in names}
+    yield dict(base)
+    opts = []
+    for n in names:
+        for k in (times if times is not None else range(horizon + 1)):
+            for sh in shapes:
+                if sh == "step":
+                    tab = [False] * k + [True] * (horizon + 1 - k)
+                else:
+                    tab = [False] * (horizon + 1)
+                    tab[k] = True
+                    if k == horizon:
+                        continue
+                opts.append((n, tab))
+    for d in range(1, max_dev + 1):
+        for combo in itertools.combinations(opts, d):
+            ns = [c[0] for c in combo]
+            if len(set(ns)) < d:
+                continue
+            t = dict(base)
+            for n, tab in combo:
+                t[n] = tab
+            yield t
